@@ -9,6 +9,7 @@ import (
 	"path/filepath"
 	"sort"
 	"strings"
+	"time"
 
 	"github.com/go-spatial/geom"
 	"github.com/go-spatial/geom/cmp"
@@ -136,6 +137,8 @@ func printVal(v interface{}) string {
 		return fmt.Sprintf("i:%d", t)
 	case float64:
 		return fmt.Sprintf("f:%x", math.Float64bits(t))
+	case time.Time:
+		return "t:" + t.UTC().Format(time.RFC3339Nano) // the instant, whatever text form the file holds
 	}
 	return fmt.Sprintf("%T:%v", v, v)
 }
@@ -294,10 +297,10 @@ func randTable(rng *rand.Rand, name string, gt gpkg.GeometryType, n int, emptySh
 	} else {
 		t.cols = append(t.cols, colSpec{"code", "TEXT"})
 	}
-	types := []string{"INTEGER", "REAL", "TEXT"}
+	types := []string{"INTEGER", "REAL", "TEXT", "INTEGER", "REAL", "TEXT", "DATETIME", "DATE"}
 	na := rng.Intn(5) // 0..4 more attribute columns: with the key 1..5 columns, so cap > len happens
 	for a := 0; a < na; a++ {
-		t.cols = append(t.cols, colSpec{fmt.Sprintf("a%d", a), types[rng.Intn(3)]})
+		t.cols = append(t.cols, colSpec{fmt.Sprintf("a%d", a), types[rng.Intn(len(types))]})
 	}
 	t.gpos = 1 + rng.Intn(len(t.cols)) // anywhere after the key
 	desc := rng.Intn(2) == 0
@@ -321,6 +324,14 @@ func randTable(rng *rand.Rand, name string, gt gpkg.GeometryType, n int, emptySh
 				row[a] = int64(rng.Intn(1000) - 500)
 			case "REAL":
 				row[a] = float64(rng.Intn(1000))/8 + 0.5
+			case "DATETIME": // with milliseconds, now and then exactly on a second
+				ms := rng.Intn(1000)
+				if rng.Intn(4) == 0 {
+					ms = 0
+				}
+				row[a] = time.Date(1990+rng.Intn(40), time.Month(1+rng.Intn(12)), 1+rng.Intn(28), rng.Intn(24), rng.Intn(60), rng.Intn(60), ms*1000000, time.UTC)
+			case "DATE":
+				row[a] = time.Date(1990+rng.Intn(40), time.Month(1+rng.Intn(12)), 1+rng.Intn(28), 0, 0, 0, 0, time.UTC)
 			default:
 				row[a] = fmt.Sprintf("t%d-%d", i, rng.Intn(100))
 			}
